@@ -23,7 +23,7 @@ BUDGETS = {
     "C09": {"quick": {"procs": 32, "runs": 6}, "thorough": {"procs": 256, "runs": 60}},
     "C10": {"quick": {"procs": 32, "runs": 12}, "thorough": {"procs": 192, "runs": 100}},
     "C11": {"quick": {"procs": 32, "runs": 10}, "thorough": {"procs": 192, "runs": 60}},
-    "C12": {"quick": {"procs": 32, "runs": 10}, "thorough": {"procs": 256, "runs": 80}},
+    "C12": {"quick": {"procs": 32, "runs": 40}, "thorough": {"procs": 256, "runs": 300}},
     "C13": {"quick": {"procs": 32, "runs": 20}, "thorough": {"procs": 192, "runs": 150}},
     "C14": {"quick": {"procs": 32, "runs": 15}, "thorough": {"procs": 256, "runs": 120}},
     "C15": {"quick": {"procs": 32, "runs": 25}, "thorough": {"procs": 256, "runs": 250}},
@@ -160,7 +160,7 @@ META = {
         ["hill_moved", "hill_local_optimum_checked", "tree_estimator_reused"],
     ),
     "C12": _m(
-        "one evaluation = one simulated run: a ground-truth DAG on 2..5 (6 thorough) string-labelled nodes, then 1..3 operations: PC.estimate with variant in "
+        "one evaluation = one simulated run: a ground-truth DAG on 2..6 string-labelled nodes, then 1..3 operations: PC.estimate with variant in "
         "{orig, stable, parallel}, exact independence information given either as the full list of true pairwise statements (independence_match) or as a callable "
         "d-separation oracle (with a PRNG-chosen column order), max_cond_vars = n, return_type in {skeleton, pdag, cpdag, dag}, under the SimParallel stub; or "
         "PDAG.to_dag on the CPDAG of a random DAG, on a further oriented version of it, or on an arbitrary PDAG over its skeleton (only PDAGs with a consistent "
